@@ -493,6 +493,8 @@ class Client(base_client.BaseClient):
 
     def _read_loop_polling(self):
         """Read packets by polling the Engine.IO server."""
+        # the queue identifies the connection this task belongs to
+        queue = self.queue
         while self.state == 'connected' and self.write_loop_task:
             self.logger.info(
                 'Sending polling GET request to ' + self.base_url)
@@ -524,7 +526,7 @@ class Client(base_client.BaseClient):
         if self.write_loop_task:  # pragma: no branch
             self.logger.info('Waiting for write loop task to end')
             self.write_loop_task.join()
-        if self.state == 'connected':
+        if self.state == 'connected' and self.queue is queue:
             self._trigger_event('disconnect', self.reason.TRANSPORT_ERROR,
                                 run_async=False)
             try:
@@ -536,6 +538,8 @@ class Client(base_client.BaseClient):
 
     def _read_loop_websocket(self):
         """Read packets from the Engine.IO WebSocket connection."""
+        # the queue identifies the connection this task belongs to
+        queue = self.queue
         while self.state == 'connected':
             p = None
             try:
@@ -575,7 +579,7 @@ class Client(base_client.BaseClient):
         if self.write_loop_task:  # pragma: no branch
             self.logger.info('Waiting for write loop task to end')
             self.write_loop_task.join()
-        if self.state == 'connected':
+        if self.state == 'connected' and self.queue is queue:
             self._trigger_event('disconnect', self.reason.TRANSPORT_ERROR,
                                 run_async=False)
             try:
